@@ -52,6 +52,18 @@ var ctxQuickShapes = map[string]bool{
 
 func buildCases(shapes []shape, thorough bool) (cases []caseSpec, notApplicable, prewarm, ctxExt int) {
 	for _, sh := range shapes {
+		if sh.Family == "conc" { // concurrency dimension: scenario x engine x cause x moment
+			for _, e := range engines {
+				for _, sc := range concScenarios {
+					for _, c := range concCauses {
+						for _, m := range concMoments {
+							cases = append(cases, caseSpec{Shape: sh.ID, Engine: e, Cause: c, Moment: m, Conc: sc})
+						}
+					}
+				}
+			}
+			continue
+		}
 		cs := baseCauses
 		if sh.Family != "grammar" && (thorough || ctxQuickShapes[sh.ID]) {
 			cs = causes
@@ -110,6 +122,7 @@ func makePlan(thorough bool) *plan {
 		p.grammar = len(g)
 		p.shapes = append(p.shapes, g...)
 	}
+	p.shapes = append(p.shapes, concShapes()...)
 	for i := range p.shapes {
 		p.byID[p.shapes[i].ID] = &p.shapes[i]
 	}
@@ -118,6 +131,10 @@ func makePlan(thorough bool) *plan {
 		sh := p.byID[c.Shape]
 		// Scheduling hints only (no influence on verdicts).
 		switch {
+		case c.Conc != "":
+			// one worker per case: if the module is never closed every such case waits its 20 s bound (or
+			// hangs for the watchdog period) at the same time
+			p.phases["conc"] = append(p.phases["conc"], i)
 		case c.Engine == "compiler" && sh.Deep:
 			// the compiler's call stack grows to 400 MB before it reports exhaustion: few at a time,
 			// and never while the CPUs are oversubscribed by the tail phase
@@ -132,6 +149,10 @@ func makePlan(thorough bool) *plan {
 	}
 	p.workers["main"] = 32 // mostly waiting (deadline cases block until their deadline has passed)
 	p.workers["deep"] = 6
+	p.workers["conc"] = len(p.phases["conc"])
+	if p.workers["conc"] > 500 {
+		p.workers["conc"] = 500
+	}
 	p.workers["tail"] = len(p.phases["tail"])
 	if p.workers["tail"] > 400 {
 		p.workers["tail"] = 400
@@ -140,7 +161,7 @@ func makePlan(thorough bool) *plan {
 }
 
 // The tail phase runs alone; then deep and main run side by side.
-var phaseRounds = [][]string{{"tail"}, {"deep", "main"}}
+var phaseRounds = [][]string{{"tail"}, {"conc"}, {"deep", "main"}}
 
 var reMarker = regexp.MustCompile(`C07 (ARMED|CALLING|SELFHANG) i=(\d+) t=([0-9.]+)`)
 
@@ -177,7 +198,7 @@ func main() {
 	if fw.IsChild() {
 		dieWithParent()
 		idxs := p.phases[fw.ChildMode()]
-		lowPriorityOnceArmed = fw.ChildMode() == "tail"
+		lowPriorityOnceArmed = fw.ChildMode() == "tail" || fw.ChildMode() == "conc"
 		fw.ChildLoop(func(i int) string {
 			c := p.cases[idxs[i]]
 			return runCase(i, c, p.byID[c.Shape])
@@ -313,7 +334,11 @@ func main() {
 			samples.Add(map[string]any{"case": c.String(), "result": out, "info": info})
 			if strings.HasPrefix(out, "bad:") {
 				outcomes.Inc(out)
-				run.Violation(fmt.Sprintf("%s:%s:%s:%s:%s-cycle", strings.TrimPrefix(out, "bad:"), c.Engine, c.Cause, momentKind(c.Moment), sh.Class),
+				sig := fmt.Sprintf("%s:%s:%s:%s:%s-cycle", strings.TrimPrefix(out, "bad:"), c.Engine, c.Cause, momentKind(c.Moment), sh.Class)
+				if c.Conc != "" {
+					sig += ":concurrent:" + c.Conc
+				}
+				run.Violation(sig,
 					fmt.Sprintf("%s: %s (%s); guest: %s", c, out, info, sh.Desc), rp)
 				return
 			}
@@ -384,7 +409,8 @@ func main() {
 		"shapes": len(p.shapes), "shapes_per_family": fam, "engines": engines, "causes": baseCauses, "context_causes_extended": ctxCauses, "context_cause_cases": p.ctxExt, "moments": []string{"before-call", "after-iteration-1", "after-iteration-3"},
 		"product_cases": len(p.cases) - p.prewarm - p.ctxExt, "prewarmed_cache_cases": p.prewarm, "not_applicable": p.na, "grammar_programs_run_dynamically": p.grammar,
 		"ticks_per_guest": nTicks, "hang_watchdog_s": hangAfter.Seconds(), "supervisor_fallback_watchdog_s": caseTimeout.Seconds(), "phase_wall_s": phaseWall,
-		"phase_cases": map[string]int{"tail": len(p.phases["tail"]), "deep": len(p.phases["deep"]), "main": len(p.phases["main"])},
+		"concurrency_scenarios": concScenarios, "concurrency_causes": concCauses,
+		"phase_cases": map[string]int{"conc": len(p.phases["conc"]), "tail": len(p.phases["tail"]), "deep": len(p.phases["deep"]), "main": len(p.phases["main"])},
 	}
 	extra := map[string]any{
 		"structural_programs": sProgs, "structural_nodes": sNodes, "structural_edges": sEdges, "structural_check_nodes": sChecks,
